@@ -184,6 +184,46 @@ def check_C16(tier, seed):
                     out.violation("c16:routes-differ:%s" % "/".join(sorted({r.split("/")[0] for rs in groups.values() for r in rs})),
                                   "the same grammar and settings gave different code: %s%s" % (desc, (" first difference at byte %d: %r vs %r" % (pos, a[pos - 30:pos + 30], b[pos - 30:pos + 30])) if pos is not None else ""),
                                   {"grammar_text": grammars[i][1], "derives": dspec, "routes": desc})
+        # ---- concurrent compilations inside one process (a language server, a parallel test harness): every thread compiles
+        # every grammar, all at the same time; each result must be the one a single thread of the same binary produces
+        cg = build.tool_cgdrv()
+        jf = os.path.join(wd, "jobs_mt.tsv")
+        with open(jf, "w") as f:
+            for i, (gg, _, gp) in enumerate(grammars):
+                f.write("\t".join(["g%d" % i, gp, "-", "-", "vfrt::Ctx" if gg.user_ctx else "-"]) + "\n")
+
+        def mt(nth):
+            pr = subprocess.run([cg, "genmt", jf, str(nth)], stdout=subprocess.PIPE, stderr=subprocess.DEVNULL, env=build.BASE_ENV, timeout=900)
+            res = {}
+            lines = pr.stdout.decode("utf-8", "replace").splitlines()
+            if pr.returncode != 0 or not lines or lines[-1] != "DONE":
+                return None
+            for l in lines:
+                if l.startswith("MT "):
+                    f_ = l.split(" ")
+                    res.setdefault(f_[1], []).append((f_[4], f_[5], int(f_[2]), int(f_[3]), f_[6] if len(f_) > 6 else "-"))
+            return res
+        ref_mt = mt(1)
+        con_mt = mt(8)
+        mt_compared = 0
+        if ref_mt is None or con_mt is None:
+            out.inconc("concurrent_compile_driver_failed")
+        else:
+            for gid, lst in con_mt.items():
+                want = {(c, h) for (c, h, _, _, _) in ref_mt.get(gid, [])}
+                if len(want) != 1:
+                    out.violation("c16:single-thread-nondeterministic", "one thread compiling %s three times gave different results" % gid, {"results": sorted(want)})
+                    continue
+                for (c, h, t, rnd_, head) in lst:
+                    mt_compared += 1
+                    executions += 1
+                    if (c, h) not in want:
+                        gi = int(gid[1:])
+                        out.violation("c16:concurrent-compile-differs", "grammar %s compiled on thread %d (round %d) while 7 other threads were compiling gave %s (%s...), a single thread gives %s" % (
+                            gid, t, rnd_, c, build.unhex(head)[:100] if head != "-" else "", sorted(want)[0][0]),
+                            {"grammar_text": grammars[gi][1], "thread": t, "round": rnd_, "class": c, "single_thread_class": sorted(want)[0][0]})
+                        break
+        out.coverage["concurrent_compilations_compared"] = mt_compared
         # ---- peginate!: same types, same behaviour
         nm = 8 if tier == "quick" else 48
         units = []
